@@ -23,6 +23,10 @@ claimed = {
    text="Fault injection at every file-operation boundary inside Put: a fault-free dry run lists the N operations (and M source-reader calls) of the target Put for a seeded scenario shape (prior entries, overwrite/new/shared output, pre-damaged or trimmed-away output), then operation k fails / writes short then fails / the process halts before, after or in the middle of it, or the reader fails, ends early, changes or grows between passes. After a restart: GetBytes not-found or hash-valid, GetFile size-valid and (undamaged start) content-valid, entries of other ids readable before stay readable, an acknowledged Put reads back, a fault-free retry succeeds. Thorough executes the whole (operation x action) space of a tenth of the shapes to completion and adds a concurrent reader process; shapes are sampled.",
    note="Process-crash model (halt at an operation boundary or mid-write), no power-loss/lost-write model; single fault per attempt; real SIGKILLs replaced by seed-determined halts.",
    tech="deterministic simulation with fault injection: per-operation error/short-write/halt and faulty source readers, restart, invariant check"),
+ "C11": dict(cat="exploration", ref="3 (C11)",
+   text="Seeded schedule search over the file operations of 2-3 simulated processes x 1-2 goroutines doing Put/GetBytes/GetFile on one directory (identical and differing contents per id, a sequential prefix, hot-id bias), page-granular torn reads/writes, random/sticky/pct/preemption-bounded schedules. Oracle over the recorded history: every successful lookup returns hash- and size-valid bytes that some Put stored for that id; a lookup overlapped only by Puts of the content the id stably holds must hit and return it; files named by GetFile keep their bytes for a slow consumer; after quiescence every stored id is readable. Sampling, not enumeration.",
+   note="Sub-page single read/write calls are atomic in the model; no faults here (C12). Processes are task groups with private *Cache and descriptors in one OS process; the kernel file system is real.",
+   tech="deterministic simulation: seeded scheduler over intercepted file operations of several simulated processes, history oracle"),
 }
 na = {
  "C02": "pure function of the line text and the assignment history: no schedule, clock, fault or second party for a simulator to own",
